@@ -156,6 +156,20 @@ Proof. exact (C08SysProofs.sys_registration_good maxi eq_refl). Qed.
 Theorem C08_sys_young_if_few : forall s, Z.of_nat (allocs s) < 2147483648 - 1 -> all_young s.
 Proof. exact C08SysProofs.young_if_few. Qed.
 
+(* ---- the CURRENT source of ServantProxy.TarsInvoke: the id on the wire is genRequestID's result ----
+   The request literal and the timeout statements after it are regenerated from tars/servant.go on every run
+   (Xlate/TarsInvokeEquiv.v): whatever the call kind, the per-call timeout, the caller's deadline - the request that leaves
+   TarsInvoke carries the id genRequestID returned (whose steps are Xlate/ReqIdEquiv.v), ITimeout is the effective timeout. *)
+From TarsV Require Import Xlate.GoSem Gen.Translated Xlate.TarsInvokeEquiv.
+Theorem C08_source_request_id : forall cType fn status ctx mtype name proxy_ms version id sbuf has_dl until ct,
+  int31 proxy_ms -> int31 (snd (fst ct)) -> int63 until ->
+  exists armed t req, go_tarsinvoke cType fn status ctx mtype name proxy_ms version id sbuf has_dl until ct = Next (armed, t, req) /\
+    go_requestf_RequestPacket_IRequestId req = id /\
+    go_requestf_RequestPacket_ITimeout req = eff_itimeout proxy_ms (per_call ct) (if has_dl then Some until else None) /\
+    t = eff_timeout proxy_ms (per_call ct) (if has_dl then Some until else None) /\
+    armed = (if has_dl then []%list else [t]%list).
+Proof. exact TarsInvokeEquiv.tarsinvoke_request_id. Qed.
+
 Print Assumptions C08_id_nonzero.
 Print Assumptions C08_id_distance.
 Print Assumptions C08_id_distance_tight.
@@ -179,3 +193,4 @@ Print Assumptions C08_outstanding_never_share_refuted.
 Print Assumptions C08_sys_no_foreign_reply.
 Print Assumptions C08_sys_registration_good.
 Print Assumptions C08_sys_young_if_few.
+Print Assumptions C08_source_request_id.
